@@ -68,7 +68,7 @@ def invoke_entry(client, e):
     if k == 'cd':
         return client.control_dtc_setting(e[1], e[2])
     if k == 'lc':
-        baud = None if e[2] is None else Baudrate(e[2], {'f': Baudrate.Type.Fixed, 's': Baudrate.Type.Specific, 'i': Baudrate.Type.Identifier}[e[3]])
+        baud = None if e[2] is None else (Baudrate(e[2]) if e[3] == 'a' else Baudrate(e[2], {'f': Baudrate.Type.Fixed, 's': Baudrate.Type.Specific, 'i': Baudrate.Type.Identifier}[e[3]]))
         return client.link_control(e[1], baud)
     if k == 'rc':
         return client.routine_control(e[1], e[2], e[3])
@@ -238,6 +238,15 @@ SID = {'cs': 0x10, 'er': 0x11, 'rs': 0x27, 'sk': 0x27, 'tp': 0x3E, 'cc': 0x28, '
 HAS_SF = {'cs', 'er', 'rs', 'sk', 'tp', 'cc', 'at', 'cd', 'lc', 'rc'}
 
 
+def lc_eff_type(rate, ty):
+    """Baudrate.Type.Auto resolved as the class documents: a standard rate is Fixed, a value that fits one byte an Identifier, anything else Specific"""
+    if ty != 'a' or rate is None:
+        return ty
+    if rate in {9600, 19200, 38400, 57600, 115200, 125000, 250000, 500000, 1000000}:
+        return 'f'
+    return 'i' if 0 <= rate <= 0xFF else 's'
+
+
 def rand_entry(rng, std=2020, allow_invalid=True):
     k = rng.choice(['cs', 'er', 'er', 'rs', 'sk', 'tp', 'tp', 'cc', 'at', 'cd', 'lc', 'rc', 'rc', 'td', 'td', 'te', 'cl'])
     bad = allow_invalid and rng.random() < 0.06
@@ -267,9 +276,11 @@ def rand_entry(rng, std=2020, allow_invalid=True):
         return ('cd', rng.choice([1, 2, 0x40, 0x7F]) if not bad else 0x80, odata())
     if k == 'lc':
         ct = rng.choice([1, 2, 3])
-        ty = rng.choice(['f', 's', 'i'])
-        if ty == 'i':
-            rate = rng.choice([0x01, 0x05, 0x10, 0x12, 0x13])      # standard baudrate identifiers (effective rate differs from the number)
+        ty = rng.choice(['f', 's', 'i', 'a'])
+        if ty == 'a':                                              # Baudrate(rate): the class guesses the type; the guess is validated like an explicit type
+            rate = rng.choice([9600, 500000, 0x11, 0xFF, 0x100, 123456, 0xFFFFFF, 0x1000000, 0x1000000 + 500000, 0xFFFFFFFF])
+        elif ty == 'i':
+            rate = rng.choice([0x01, 0x05, 0x10, 0x12, 0x13, 0x13, 0x20, 0xFF])      # standard baudrate identifiers (effective rate differs from the number) and custom ones
         elif ty == 'f':
             rate = rng.choice([9600, 115200, 500000, 1000000])
         else:
@@ -318,7 +329,7 @@ def entry_frame(e, std=2020):
         if k == 'lc':
             fixed = {9600, 19200, 38400, 57600, 115200, 125000, 250000, 500000, 1000000}
             ids = {1, 2, 3, 4, 5, 0x10, 0x11, 0x12, 0x13}
-            ct, rate, ty = e[1], e[2], e[3]
+            ct, rate, ty = e[1], e[2], lc_eff_type(e[2], e[3])
             if ct in (1, 2):
                 if rate is None or (ty == 'f' and rate not in fixed) or (ty == 'i' and not 0 <= rate <= 0xFF) or (ty == 's' and not 0 <= rate <= 0xFFFFFF):
                     return None
